@@ -13,6 +13,7 @@ from __future__ import annotations
 
 import fcntl
 import logging
+import os
 import random as _real_random
 import select as _real_select
 import socket
@@ -63,7 +64,13 @@ class _SelectShim:
         if w and not r:
             if timeout is None:
                 rig.counters["logger_blocking_wait"] += 1
-                return _real_select.select(r, w, x, timeout)
+                rr, ww, xx = _real_select.select(r, w, x, timeout)
+                if len(w) > 1 and len(ww) > 1:
+                    # a wait on several sockets returns as soon as ONE of them is ready: report one of the ready ones
+                    # (the unchanged manager waits for one socket at a time, so this branch is never taken there)
+                    rig.counters["logger_batched_wait"] += 1
+                    ww = [ww[rig.counters["logger_batched_wait"] % len(ww)]]
+                return rr, ww, xx
             return rig._writable(w, timeout)
         return _real_select.select(r, w, x, timeout)
 
@@ -196,7 +203,8 @@ class ManagerRig:
         _ACTIVE = self
         _install()
         # loud: the manager publishes its own log messages (True/1: INFO and above, 2: DEBUG and above)
-        level = (logging.DEBUG if loud == 2 else logging.INFO) if loud else logging.CRITICAL + 10
+        # 3: DEBUG with the console handler left on (rendering into the null device)
+        level = (logging.DEBUG if loud in (2, 3) else logging.INFO) if loud else logging.CRITICAL + 10
         self.mgr = None
         for attempt in range(120):
             try:
@@ -210,7 +218,14 @@ class ManagerRig:
                     _ACTIVE = None
                     raise
                 _real_time.sleep(0.5)
-        if loud:
+        if loud == 3:
+            try:
+                from rich.console import Console
+                self._null = open(os.devnull, "w")
+                self.mgr.logger.console_handler.console = Console(file=self._null, force_terminal=False, width=120)
+            except Exception:
+                self.mgr.logger.enable_console = False
+        elif loud:
             try:
                 self.mgr.logger.enable_console = False
             except Exception:
